@@ -141,12 +141,19 @@ func GenMuxOps(r *core.PRNG, n int, period int, rich, invalid, allowDisc, big bo
 		if fat {
 			nd = r.Range(1, 3)
 		}
+		huge := fat && invalid && r.Chance(1, 5) // one descriptor loop beyond its 10-bit length field
+		if huge {
+			nd = 5
+		}
 		for k := 0; k < nd; k++ {
 			mx := 12
 			if fat {
 				mx = 60
 			}
 			d := genDesc(r, mx)
+			if huge {
+				d = DescSpec{Kind: "user", Tag: uint8(r.Range(0x80, 0xfe)), Data: r.Bytes(r.Range(215, 253))}
+			}
 			if invalid && r.Chance(1, 12) {
 				d.LenMode = 1 + r.Intn(2)
 			}
